@@ -386,7 +386,8 @@ def b_float(ex, p, args, kwargs, node):
     elif isinstance(v, VNone):
         yield p, Raised('TypeError', node=node)
     elif isinstance(v, VMpf):
-        yield p, VFloat(v.t)
+        from . import mpmodel
+        yield p, mpmodel.to_binary64(ex, p, v, node, 'float()')
     elif hasattr(v, 'to_float'):
         yield from v.to_float(ex, p, node)
     else:
@@ -599,7 +600,7 @@ def m_floor(ex, p, args, kwargs, node):
         yield p, to_int_val(v)
     elif isinstance(v, VMpf):
         from . import mpmodel
-        yield p, mpmodel.to_int(ex, p, v, 'floor')
+        yield p, arith.float_to_int(ex, p, mpmodel.to_binary64(ex, p, v, node, 'math.floor'), 'floor', node)
     else:
         yield p, arith.float_to_int(ex, p, v, 'floor', node)
 
@@ -610,7 +611,7 @@ def m_ceil(ex, p, args, kwargs, node):
         yield p, to_int_val(v)
     elif isinstance(v, VMpf):
         from . import mpmodel
-        yield p, mpmodel.to_int(ex, p, v, 'ceil')
+        yield p, arith.float_to_int(ex, p, mpmodel.to_binary64(ex, p, v, node, 'math.ceil'), 'ceil', node)
     else:
         yield p, arith.float_to_int(ex, p, v, 'ceil', node)
 
